@@ -1,6 +1,8 @@
-//! mode summarize: feed a scripted event sequence of ONE scenario to the real
-//! `Summarize` writer and print its counters.
+//! mode summarize | events: feed a scripted event sequence of ONE scenario to a real writer
+//! pipeline (`wrapper summarize|fail_on_skipped|repeat_skipped|repeat_failed|none`, default
+//! summarize) over a recording inner writer; print counters and what the inner writer received.
 //!
+//!   ftags a b / rtags a / stags a   tags on feature / rule / scenario (without @)
 //!   bg <n>                     background steps of the feature
 //!   own <n>                    own steps of the scenario
 //!   rule 0|1                   scenario lives in a rule
@@ -26,7 +28,16 @@ pub fn run(lines: &[Vec<String>]) {
         lines.iter().find(|l| l[0] == k).map_or(0, |l| l[1].parse().unwrap())
     };
     let (nbg, nown, in_rule) = (get("bg"), get("own"), get("rule") == 1);
-    let mut text = String::from("Feature: f\n");
+    let tags = |k: &str| -> String {
+        lines.iter().find(|l| l[0] == k).map_or(String::new(), |l| {
+            l[1..].iter().map(|t| format!("@{t}")).collect::<Vec<_>>().join(" ")
+        })
+    };
+    let mut text = String::new();
+    if !tags("ftags").is_empty() {
+        text.push_str(&format!("{}\n", tags("ftags")));
+    }
+    text.push_str("Feature: f\n");
     if nbg > 0 {
         text.push_str("  Background:\n");
         for i in 0..nbg {
@@ -35,7 +46,13 @@ pub fn run(lines: &[Vec<String>]) {
     }
     let ind = if in_rule { "    " } else { "  " };
     if in_rule {
+        if !tags("rtags").is_empty() {
+            text.push_str(&format!("  {}\n", tags("rtags")));
+        }
         text.push_str("  Rule: r\n");
+    }
+    if !tags("stags").is_empty() {
+        text.push_str(&format!("{ind}{}\n", tags("stags")));
     }
     text.push_str(&format!("{ind}Scenario: s\n"));
     for i in 0..nown {
@@ -49,8 +66,9 @@ pub fn run(lines: &[Vec<String>]) {
     let own_steps: Vec<_> = scen.steps.clone();
 
     let rec = Rec::default();
-    let mut w = writer::Summarize::new(rec.clone());
     let cli = cli::Empty;
+    let wrapper = lines.iter().find(|l| l[0] == "wrapper").map_or("summarize".to_owned(), |l| l[1].clone());
+    let mut evs: Vec<parser::Result<Event<Ev<W>>>> = Vec::new();
     let caps = || regex::Regex::new("").unwrap().capture_locations();
     let info = || -> event::Info { Arc::new("boom".to_owned()) };
 
@@ -107,8 +125,73 @@ pub fn run(lines: &[Vec<String>]) {
             })),
             k => panic!("event kind {k}"),
         };
-        block_on(Writer::<W>::handle_event(&mut w, ev, &cli));
+        evs.push(ev);
     }
+    macro_rules! feed {
+        ($w:expr) => {{
+            let mut w = $w;
+            for ev in evs.drain(..) {
+                block_on(Writer::<W>::handle_event(&mut w, ev, &cli));
+            }
+            w
+        }};
+    }
+    let dump = |rec: &Rec| {
+        for l in rec.log.lock().unwrap().iter() {
+            println!("LOG {l}");
+        }
+    };
+    match wrapper.as_str() {
+        "summarize" => {}
+        "fail_on_skipped" => {
+            let _w = feed!(writer::FailOnSkipped::new(rec.clone()));
+            dump(&rec);
+            println!("RESULT inner_events={}", rec.log.lock().unwrap().len());
+            return;
+        }
+        "repeat_skipped" => {
+            let _w = feed!(writer::Repeat::skipped(rec.clone()));
+            dump(&rec);
+            println!("RESULT inner_events={}", rec.log.lock().unwrap().len());
+            return;
+        }
+        "repeat_failed" => {
+            let _w = feed!(writer::Repeat::failed(rec.clone()));
+            dump(&rec);
+            println!("RESULT inner_events={}", rec.log.lock().unwrap().len());
+            return;
+        }
+        "tee" => {
+            let (l, r) = (Rec::default(), Rec::default());
+            let cli2 = cli::Compose { left: cli::Empty, right: cli::Empty };
+            let mut w = writer::Tee::new(l.clone(), r.clone());
+            for ev in evs.drain(..) {
+                block_on(Writer::<W>::handle_event(&mut w, ev, &cli2));
+            }
+            println!("RESULT left_events={} right_events={}", l.log.lock().unwrap().len(), r.log.lock().unwrap().len());
+            return;
+        }
+        "or_true" | "or_false" => {
+            let (l, r) = (Rec::default(), Rec::default());
+            let cli2 = cli::Compose { left: cli::Empty, right: cli::Empty };
+            let pick = wrapper == "or_true";
+            let mut w = writer::Or::new(l.clone(), r.clone(), move |_: &parser::Result<Event<Ev<W>>>, _: &cli::Compose<cli::Empty, cli::Empty>| pick);
+            for ev in evs.drain(..) {
+                block_on(Writer::<W>::handle_event(&mut w, ev, &cli2));
+            }
+            println!("RESULT left_events={} right_events={}", l.log.lock().unwrap().len(), r.log.lock().unwrap().len());
+            return;
+        }
+        "none" => {
+            let _w = feed!(rec.clone());
+            dump(&rec);
+            println!("RESULT inner_events={}", rec.log.lock().unwrap().len());
+            return;
+        }
+        w => panic!("unknown wrapper {w}"),
+    }
+    let w = feed!(writer::Summarize::new(rec.clone()));
+    dump(&rec);
     let s = w.scenarios_stats();
     let t = w.steps_stats();
     let wr = rec.log.lock().unwrap().iter().filter(|l| l.starts_with("write:")).count();
